@@ -134,6 +134,14 @@ func randomCodeFrom(a *Asm, r *Rng, n int, targets []common.Address) []byte {
 			}
 		case k < 82: // create
 			init := []byte{opPUSH1, byte(r.Intn(3)), opPUSH1, 0, opSSTORE, opPUSH1, 1, opPUSH1, 0, opRETURN}
+			switch r.Intn(6) {
+			case 0: // init code that jumps to a real JUMPDEST
+				init = []byte{opPUSH1, 4, opJUMP, opSTOP, opJUMPDEST, opSTOP}
+			case 1: // … and one of the same length whose target is the data byte of a PUSH (0x5b inside push data)
+				init = []byte{opPUSH1, 4, opJUMP, opPUSH1, opJUMPDEST, opSTOP}
+			case 2: // a longer one with the JUMPDEST further out, then a store and a one-byte runtime
+				init = []byte{opPUSH1, 7, opJUMP, opPUSH1, opJUMPDEST, opSTOP, opSTOP, opJUMPDEST, opPUSH1, 1, opPUSH1, 0, opSSTORE, opPUSH1, 1, opPUSH1, 0, opRETURN}
+			}
 			for j, b := range init {
 				a.Op(opPUSH1, b).PushU(uint64(j)).Op(0x53)
 			}
@@ -461,6 +469,16 @@ func runStructLoggerPair(c *diffCase, gas uint64) string {
 	return "same"
 }
 
+// executesJournalByte: some step of the fork's trace has an opcode byte in 0xe0-0xe7
+func executesJournalByte(trace []string) bool {
+	for _, l := range trace {
+		if i := strings.Index(l, " ope"); i >= 0 && i+5 < len(l) && l[i+4] >= '0' && l[i+4] <= '7' && (strings.HasPrefix(l, "step ") || strings.HasPrefix(l, "fault ")) {
+			return true
+		}
+	}
+	return false
+}
+
 func driveDiff(seed uint64, n int, size int, em *Emitter) {
 	r := NewRng(seed)
 	initHost()
@@ -491,9 +509,20 @@ func driveDiff(seed uint64, n int, size int, em *Emitter) {
 			c.codes[a] = randomCodeFrom(pre, r, 3+r.Intn(size+10), targets)
 		}
 		c.input = r.Bytes([]int{0, 4, 36, 100}[r.Intn(4)])
+		for k, x := range c.input {
+			if x >= 0xe0 && x <= 0xe7 {
+				c.input[k] = 0xfe // calldata may end up executed (CALLDATACOPY + CREATE): keep it over the standard instruction set
+			}
+		}
 		c.create = r.Chance(10)
 		gas := uint64(3_000_000)
 		f, u := runFork(c, gas, true), runUpstream(c, gas, true)
+		if executesJournalByte(f.trace) {
+			// the execution reached one of the bytes 0xe0-0xe7 as an instruction (data copied to memory and run as init code, a
+			// hash output used as code, …): not a program over the standard instruction set, so the property does not speak about it
+			em.Count("diff:out-of-scope:journal-byte-executed")
+			continue
+		}
 		verdict := "same"
 		if f.summary != u.summary {
 			verdict = "differs:result:fork=" + strings.ReplaceAll(f.summary, " ", "_") + "|upstream=" + strings.ReplaceAll(u.summary, " ", "_")
